@@ -55,6 +55,7 @@ var trUnits = []*trUnit{
 	{pkg: "lib/journal", mod: "Journal", funcs: []string{"ComputePrices", "Valuate", "Filter", "CloseAccounts", "CompareDays", "New", "Builder.Day", "Builder.Build",
 		"Builder.Add", "Builder.Period", "Query.Into"},
 		agree: map[string]string{"ComputePrices": "Process", "Valuate": "Process", "Filter": "Process", "CloseAccounts": "Process", "Query.Into": "Query"}},
+	{pkg: "lib/reports/balance", mod: "Report", funcs: []string{"NewReport", "Report.Insert", "Report.SortAlpha", "Report.SortWeighted", "Report.Totals"}},
 }
 
 func (u *trUnit) agreeMod(fn string) string {
@@ -154,6 +155,9 @@ func (t *trTranslator) directEffectIn(info *types.Info, root ast.Node) bool {
 					}
 					if fo.FullName() == "sort.Search" {
 						eff = true
+					}
+					if fo.Pkg() != nil && fo.Pkg().Path() == trMultimapPath && fo.Name() == "PostOrder" {
+						eff = true // the traversal runs on fuel and its function may panic
 					}
 				}
 			}
@@ -585,6 +589,9 @@ func trRun(repo string) (map[string]string, []string) {
 		}
 		fmt.Fprintf(&b, "/- GENERATED by `harness extract` (harness/trans*.go) from %s/*.go on every run of bin/check. Do not edit.\n   Meaning of the primitives: lean/Knut/GoSem; agreement with the model: lean/Knut/FactsAgree/Trans%s.lean. -/\n", u.pkg, u.mod)
 		b.WriteString("import Knut.GoSem.Basic\nimport Knut.GoSem.Time\nimport Knut.GoSem.Decimal\nimport Knut.GoSem.Strings\n")
+		if t.usesTree[u] {
+			b.WriteString("import Knut.GoSem.Multimap\n")
+		}
 		var imps []string
 		for v := range t.imports[u] {
 			imps = append(imps, "import Knut.Generated.Trans"+v.mod)
